@@ -98,6 +98,7 @@ func main() {
 	rx.KeywordSpace(kw, check)
 	rx.SequenceSpace(r.Quick(), check)
 	rx.OverlapSpace(r.Quick(), check)
+	rx.NestedQuantSpace(check)
 	if !r.Quick() {
 		rx.DeepSpace(check)
 	}
